@@ -102,6 +102,8 @@ def mapCols (f : Nat → Nat) : Expr → Expr
   | .caseOf x parts => .caseOf (mapCols f x) (mapColsList f parts)
   | .strFn g e => .strFn g (mapCols f e)
   | .concat a b => .concat (mapCols f a) (mapCols f b)
+  | .nullif a b => .nullif (mapCols f a) (mapCols f b)
+  | .coalesce xs => .coalesce (mapColsList f xs)
 def mapColsList (f : Nat → Nat) : List Expr → List Expr
   | [] => []
   | e :: es => mapCols f e :: mapColsList f es
@@ -127,6 +129,8 @@ def cols : Expr → List Nat
   | .caseOf x parts => cols x ++ colsList parts
   | .strFn _ e => cols e
   | .concat a b => cols a ++ cols b
+  | .nullif a b => cols a ++ cols b
+  | .coalesce xs => colsList xs
 def colsList : List Expr → List Nat
   | [] => []
   | e :: es => cols e ++ colsList es
